@@ -3,7 +3,7 @@ import json, os
 import vlib
 
 ASSUME = [
-    "the abstract IDL the harness generates is the declared schema; the harness prints it to .thrift text (includes, typedef chains, enums, unions, exceptions, recursive structs, services with inheritance); TLA+ TDesc resolves typedefs/enums/inheritance itself",
+    "the abstract IDL the harness generates is the declared schema; the harness prints it to .thrift text (includes, typedef chains, enums, unions, exceptions, recursive structs, services with inheritance); TLA+ TMirror resolves typedefs/enums/inheritance itself",
     "dynamicgo's descriptor graph is dumped by descriptor identity; every struct node carries the result of FieldById for every id 0..65535 and of FieldByKey for every declared name/alias of the whole IDL and variants "
     "(prefix, extension, upper case, one byte flipped, a control byte inserted, a non-ASCII suffix, empty, 300-byte key); on structs whose fields are all i32/i64 the native converter is probed with {\"key\":1} documents",
     "functions take one argument and at most one exception (the parser wraps only those); duplicate method names in the combined function list are unspecified",
